@@ -5,6 +5,7 @@ import equinox.internal as eqxi
 import jax
 
 from fdtdx.config import SimulationConfig
+from fdtdx.core import verif_hooks
 from fdtdx.core.jax.default_key import default_key
 from fdtdx.fdtd.container import ObjectContainer, SimulationState
 from fdtdx.fdtd.update import add_interfaces, update_detector_states, update_E_reverse, update_H_reverse
@@ -131,5 +132,8 @@ def backward(
             inverse=True,
         )
 
+    verif_hooks.emit_step(
+        "bwd", time_step, arrays.fields.E, arrays.fields.H, rd=bool(record_detectors), reset=bool(reset_fields)
+    )
     next_state = (time_step, arrays)
     return next_state
